@@ -7,6 +7,7 @@
 #include "engine.h"
 #include "rulelab.h"
 #include <unistd.h>
+#include <sys/stat.h>
 extern "C" {
 #include <yara/compiler.h>
 }
@@ -397,6 +398,24 @@ static void run_chained_cap(Stats& st, std::set<std::string>& reported) {
   yr_rules_destroy(r); yr_rules_destroy(w);
 }
 
+
+// a circular include chain through real files: the documented error, no crash, no endless recursion
+static void run_include_cycle(Stats& st, std::set<std::string>& reported) {
+  J rp = J::obj(); rp.set("engine", "sim_clock"); rp.set("mode", "limits"); rp.set("boundary", "@include-cycle");
+  std::string d = tmp_dir() + "/c15cyc"; mkdir(d.c_str(), 0755);
+  for (int len : {1, 2, 3, 7}) {
+    for (int i = 1; i <= len; i++) write_file(d + "/c" + std::to_string(i) + ".yar", "include \"c" + std::to_string(i % len + 1) + ".yar\"\nrule r" + std::to_string(i) + " { condition: true }\n");
+    std::string src = "include \"" + d + "/c1.yar\"\nrule top { condition: true }";
+    IsoResult iso = sim_isolate([&] { int le = 0; int e = compile_err(src, le); iso_emit(std::to_string(e) + " " + std::to_string(le)); }, 30);
+    st.runs++; st.c["boundary.include-cycle"]++; Hash64 h; h.add("cyc"); h.addu(len); st.hash(h.h);
+    std::string at = "cycle of " + std::to_string(len) + " include file(s): ";
+    if (iso.kind == 3) emit_c15("hang", "boundary|include-cycle|does-not-terminate", at + "still compiling after 30 s", rp, reported, st);
+    else if (iso.kind != 0) emit_c15("limit-memory-error", "boundary|include-cycle|" + sim_crash_signature(iso).substr(0, 60), at + iso.err.substr(0, 800), rp, reported, st);
+    else { st.c["faults_fired.limit_exceeded"]++; if (iso.out.rfind("0 ", 0) == 0) emit_c15("limit-not-enforced", "boundary|include-cycle|accepted", at + "compiled without error", rp, reported, st); else if (int code = atoi(iso.out.substr(iso.out.find(' ') + 1).c_str()); code != ERROR_INCLUDES_CIRCULAR_REFERENCE && code != ERROR_INCLUDE_DEPTH_EXCEEDED && code != ERROR_SYNTAX_ERROR) emit_c15("limit-wrong-error", "boundary|include-cycle|error=" + iso.out.substr(iso.out.find(' ') + 1), at + iso.out, rp, reported, st); }
+  }
+  if (!library_usable()) emit_c15("unusable-after-limit", "boundary|include-cycle|library-unusable-afterwards", "follow-up compile+scan failed", rp, reported, st);
+}
+
 static void run_boundaries(Stats& st, std::set<std::string>& reported, const std::string& only = "") {
   if (only.empty() || only == "@scanner-after-limit") run_scanner_after_limit(st, reported);
   if (only.empty() || only == "@stack-sweep") run_stack_sweep(st, reported);
@@ -404,6 +423,7 @@ static void run_boundaries(Stats& st, std::set<std::string>& reported, const std
   if (only.empty() || only == "@regex-jump-sweep") run_regex_jump_sweep(st, reported);
   if (only.empty() || only == "@loop-int64-max") run_loop_int64_max(st, reported);
   if (only.empty() || only == "@chained-cap") run_chained_cap(st, reported);
+  if (only.empty() || only == "@include-cycle") run_include_cycle(st, reported);
   if (!only.empty() && only[0] == '@') return;
   std::vector<Lim> lims;
   lims.push_back({"loop-nesting", YR_MAX_LOOP_NESTING, [](int n, int& e, int& le, int& rc) { std::string c = "true"; for (int i = n; i >= 1; i--) c = "for any v" + std::to_string(i) + " in (0..1) : ( " + c + " )"; e = compile_err("rule x { condition: " + c + " }", le); rc = 0; }, {ERROR_LOOP_NESTING_LIMIT_EXCEEDED}});
@@ -412,6 +432,8 @@ static void run_boundaries(Stats& st, std::set<std::string>& reported, const std
   lims.push_back({"strings-per-rule-unreferenced", 8, [](int n, int& e, int& le, int& rc) { yr_set_configuration_uint32(YR_CONFIG_MAX_STRINGS_PER_RULE, 8); std::string s = "rule x { strings:\n$a = \"referenced_one\"\n"; for (int i = 1; i < n; i++) s += "$_u" + std::to_string(i) + " = \"unref_" + std::to_string(i) + "_\"\n"; e = compile_err(s + "condition: $a }", le); yr_set_configuration_uint32(YR_CONFIG_MAX_STRINGS_PER_RULE, 10000); rc = 0; }, {ERROR_TOO_MANY_STRINGS}});
   lims.push_back({"strings-per-rule-mixed", 8, [](int n, int& e, int& le, int& rc) { yr_set_configuration_uint32(YR_CONFIG_MAX_STRINGS_PER_RULE, 8); std::string s = "rule x { strings:\n"; for (int i = 0; i < n; i++) s += std::string(i % 2 ? "$_u" : "$r") + std::to_string(i) + " = \"mixed_" + std::to_string(i) + "_\"\n"; e = compile_err(s + "condition: any of ($r*) }", le); yr_set_configuration_uint32(YR_CONFIG_MAX_STRINGS_PER_RULE, 10000); rc = 0; }, {ERROR_TOO_MANY_STRINGS}});
   lims.push_back({"include-depth", YR_MAX_INCLUDE_DEPTH, [](int n, int& e, int& le, int& rc) { std::map<std::string, std::string> inc; for (int i = 1; i <= n; i++) inc["f" + std::to_string(i)] = i < n ? "include \"f" + std::to_string(i + 1) + "\"\n" : "rule deepest { condition: true }\n"; e = compile_err("include \"f1\"\nrule top { condition: true }", le, nullptr, &inc); rc = 0; }, {ERROR_INCLUDE_DEPTH_EXCEEDED, ERROR_SYNTAX_ERROR}});
+  // the same through yara's own include callback and real files, and a circular chain
+  lims.push_back({"include-depth-files", YR_MAX_INCLUDE_DEPTH, [](int n, int& e, int& le, int& rc) { std::string d = tmp_dir() + "/c15inc"; mkdir(d.c_str(), 0755); for (int i = 1; i <= n; i++) write_file(d + "/f" + std::to_string(i) + ".yar", i < n ? "include \"f" + std::to_string(i + 1) + ".yar\"\n" : "rule deepest { condition: true }\n"); e = compile_err("include \"" + d + "/f1.yar\"\nrule top { condition: true }", le); rc = 0; }, {ERROR_INCLUDE_DEPTH_EXCEEDED, ERROR_SYNTAX_ERROR}});
   lims.push_back({"identifier-length", 128, [](int n, int& e, int& le, int& rc) { e = compile_err("rule " + std::string(n, 'r') + " { condition: true }", le); rc = 0; }, {ERROR_SYNTAX_ERROR}});
   lims.push_back({"integer-literal", 18, [](int n, int& e, int& le, int& rc) { e = compile_err("rule x { condition: filesize < " + (n <= 18 ? std::string(n, '9') : n == 19 ? std::string("9223372036854775808") : std::string(n, '9')) + " }", le); rc = 0; }, {ERROR_INTEGER_OVERFLOW, ERROR_SYNTAX_ERROR}});
   lims.push_back({"regex-size", 4000, [](int n, int& e, int& le, int& rc) { std::string re; for (int i = 0; i < (n < 8 ? 1 : n / 8); i++) re += "(ab|cd)x"; e = compile_err("rule x { strings: $r = /" + re + "/ condition: $r }", le); rc = 0; }, {ERROR_REGULAR_EXPRESSION_TOO_LARGE, ERROR_REGULAR_EXPRESSION_TOO_COMPLEX, ERROR_INVALID_REGULAR_EXPRESSION, ERROR_SYNTAX_ERROR}});
